@@ -19,7 +19,7 @@ RULE = ("Hypothesis draws a smooth tomogram (16..40 per side, non-cubic, numpy o
         "reproduce the tomogram block; out-of-bound behaviour (finite fill / SubvolumeOutOfBoundError) and the "
         "four loading routes are checked. Non-trivial = a compared voxel with a non-identity rotation or fractional "
         "position, or a boundary/outside class.")
-RULE += (" " + 'Also: tomogram dtypes float16 (incl. values near the top of its range), float32 and float64.')
+RULE += (" " + 'Also: tomogram dtypes float16 (incl. values near the top of its range), float32 and float64. Round 7: order / output_shape given as numpy integers (np.uint8, np.int64 scalar, uint8 array), a batch loader holding the same tomogram under two image ids (corner_safe must reach it), up to 4 molecules per case.')
 TOLERANCES = {"order0": "exact (voxels within 1e-3 of a rounding tie skipped)", "order1": "1e-4 * range",
               "order3": "2e-2 * range, compared >= 3 voxels inside the tomogram (prefilter of the cropped window)",
               "exact block": "1e-5 * range for every order"}
@@ -73,8 +73,17 @@ def judge(d):
     order_arg = np.uint8(order) if af == "np-small" else (np.int64(order) if af == "np-scalar" else order)
     shape_arg = (np.array(shape, dtype=np.uint8) if af == "np-small"
                  else (np.int64(shape[0]) if af == "np-scalar" and len(set(shape)) == 1 else shape))
-    loader = SubtomogramLoader(as_input(tomo, d), mole, order=order_arg, scale=scale, output_shape=shape_arg,
-                               corner_safe=cs)
+    if d.get("loader_kind") == "batch":
+        # the same tomogram registered twice in a batch loader, the molecules split between the two registrations
+        from acryo import BatchLoader
+        loader = BatchLoader(order=order_arg, scale=scale, output_shape=shape_arg, corner_safe=cs)
+        k = (len(mole) + 1) // 2
+        loader.add_tomogram(as_input(tomo, d), mole.subset(slice(0, k)), image_id=0)
+        if k < len(mole):
+            loader.add_tomogram(as_input(tomo, d), mole.subset(slice(k, None)), image_id=1)
+    else:
+        loader = SubtomogramLoader(as_input(tomo, d), mole, order=order_arg, scale=scale, output_shape=shape_arg,
+                                   corner_safe=cs)
     G = region_G(shape, cs)
     t64 = tomo.astype(np.float64)
     if order == 3:
@@ -211,7 +220,7 @@ def cases(draw):
     if exact:
         shape = [s if s % 2 else s + 1 for s in shape]
     kind = draw(st.sampled_from(["interior", "interior", "boundary", "far"]))
-    nmol = draw(st.integers(1, 3)) if kind == "interior" else 1
+    nmol = draw(st.sampled_from([1, 2, 3, 3, 4])) if kind == "interior" else 1
     mols = []
     for _ in range(nmol):
         if kind == "interior":
@@ -243,6 +252,7 @@ def cases(draw):
         chunks = draw(gen.chunkings(tshape, min_chunk=2))
     scale = draw(st.sampled_from([1.0, 0.5, 2.0, 0.3, 1.1, 0.2634, 1.37, 3.3])) if exact else draw(gen.scales)
     return {"tshape": tshape, "seed": draw(gen.seeds), "sigma": draw(st.sampled_from([0.6, 1.0, 1.5])),
+            "loader_kind": draw(st.sampled_from(["single", "single", "batch"])),
             "argform": draw(st.sampled_from(["py", "py", "py", "np-small", "np-scalar"])),
             "shape": shape, "order": order, "scale": scale, "corner_safe": draw(st.booleans()),
             "mols": mols, "chunks": chunks, "kind": kind, "exact": exact,
